@@ -123,7 +123,8 @@ class Ctx:
         self.violation_what: dict[str, str] = {}
         self.witnesses: dict[str, list[Any]] = {}
         self.t0 = time.monotonic()
-        self.deadline: float | None = None
+        self.cpu0 = sum(os.times()[:4])
+        self.deadline: float | None = None  # soft budget in seconds of `elapsed()`; None = unlimited
         self.scratch = ROOT / ".scratch" / f"{os.getpid()}"
 
     # -- cases -----------------------------------------------------------------------------
@@ -165,10 +166,17 @@ class Ctx:
         if len(w) < WITNESSES_PER_KEY:
             w.append(jsonable(witness))
 
+    def elapsed(self) -> float:
+        """Load-tolerant clock for the soft budget: CPU seconds used by this shard and its children, or a third of the wall-clock
+        time if that is larger (shards that mostly wait).  On an idle machine a CPU-bound shard sees wall-clock time; on a loaded
+        one it gets up to three times the wall-clock time before it stops adding cases, so the amount of work per run - and
+        with it the reach counters - does not depend on what else the machine is doing."""
+        return max(sum(os.times()[:4]) - self.cpu0, (time.monotonic() - self.t0) / 3.0)
+
     def time_left(self) -> float:
         if self.deadline is None:
             return 1e9
-        return self.deadline - time.monotonic()
+        return self.deadline - self.elapsed()
 
     def out_of_time(self) -> bool:
         return self.time_left() <= 0
@@ -218,7 +226,7 @@ def run_shard_child(prop: str, tier: str, seed: int, idx: int, count: int, param
     err = assert_tree()
     ctx = Ctx(prop, tier, seed, idx, count)
     soft, _ = tier_budget(tier)
-    ctx.deadline = time.monotonic() + soft
+    ctx.deadline = soft
     status = "ok"
     reason = ""
     if err:
